@@ -81,8 +81,10 @@ def run (ctx : Algo.Ctx) (op : String) (args impl : List String) : Outcome :=
     let headerItems := su.headers.map Utf8.toRunes
     let roOf (r : RS) : ROpts :=
       { ro0 with header0 := if r.headerVisible then r.header0 else [], headerItems := if r.headerVisible then r.headerItems else [],
-                 prompt := r.prompt, hscroll := r.hscroll }
-    let topOf (r : RS) : Opts := { su.top with maxItems := maxItems (roOf r) }
+                 prompt := r.prompt, hscroll := r.hscroll, inputless := r.ts.inputless }
+    let topOf (r : RS) : Opts :=
+      let shown := { roOf r with inputless := false }
+      { su.top with maxItems := maxItems shown, inputRows := promptLines shown }
     let fuzzy := o "exact" "0" != "1"
     let viewOf (r : RS) : View :=
       let ro := roOf r
@@ -176,12 +178,12 @@ def run (ctx : Algo.Ctx) (op : String) (args impl : List String) : Outcome :=
           let infoY := match ro.layout with | .reverse => 1 | _ => H - 2
           let promptTxt := rowAt promptY
           let wantPrompt := ro.prompt ++ query
-          if queryFits ro query ∧ r.xoffset == 0 ∧ ro.prompt.length + query.length + 2 < cols ∧ promptTxt.take wantPrompt.length != wantPrompt then
+          if !ro.inputless ∧ queryFits ro query ∧ r.xoffset == 0 ∧ ro.prompt.length + query.length + 2 < cols ∧ promptTxt.take wantPrompt.length != wantPrompt then
             some s!"[C15] the prompt line shows {showRow promptTxt}, the query is {q}"
           else
           let counter := infoText ro found (max found su.ls.length) selected.length
           let infoLine := if pl == 2 then rowAt infoY else promptTxt
-          if ro.info != .hidden ∧ cols ≥ counter.length + ro.prompt.length + query.length + 8 ∧ !isSub counter infoLine then
+          if !ro.inputless ∧ ro.info != .hidden ∧ cols ≥ counter.length + ro.prompt.length + query.length + 8 ∧ !isSub counter infoLine then
             some s!"[C15] the info line shows {showRow infoLine}, expected the counter {showRow counter}"
           else
           -- list rows: screen row of the k-th visible result
@@ -262,7 +264,8 @@ def run (ctx : Algo.Ctx) (op : String) (args impl : List String) : Outcome :=
       tags := ["rend", o "layout" "default", o "info" "default"] ++ (if n0tag header0 then ["header"] else []) ++
         (if su.headers.length > 0 then ["header-lines"] else []) ++
         (if live.any (fun r => (viewOf r).rows.any fun x => x.text.length > cols - (Fzf.Render.ind (roOf r) + 1)) then ["truncated"] else []) ++
-        (if acts.length ≥ 4 ∧ su.ls.length ≥ 2 then ["nt"] else []) }
+        (if acts.length ≥ 4 ∧ su.ls.length ≥ 2 then ["nt"] else []) ++
+        (if live.any (·.ts.inputless) then ["hidden-input"] else []) }
   | _, _ => { model := "bad-op" }
 where
   n0tag (h : List Str) : Bool := !h.isEmpty
